@@ -21,6 +21,11 @@ def sh(cmd, **kw):
 
 
 def main():
+    # one mutant run at a time (shared scratch worktree and alt-harness build directory)
+    import fcntl
+    os.makedirs("/tmp/lead", exist_ok=True)
+    lock = open("/tmp/lead/mutant.lock", "w")
+    fcntl.flock(lock, fcntl.LOCK_EX)
     props = sys.argv[1].split(",")
     patch = os.path.abspath(sys.argv[2])
     tier = sys.argv[3] if len(sys.argv) > 3 else "quick"
